@@ -7,10 +7,12 @@ import Driver.Equistress
 import Driver.Miner
 import Driver.MaterialLaws
 import Driver.Broadcast
+import Driver.Meanstress
+import Driver.Vmap
 open PylifeVerif.Driver
 
 /-- All handlers; the first that recognises the op answers. -/
-def handlers : List (List String → Option String) := [handleRainflow, handleHCM, handleFkmNonlinear, handleWoehler, handleCollective, handleEquistress, handleMiner, handleMaterialLaws, handleBroadcast]
+def handlers : List (List String → Option String) := [handleRainflow, handleHCM, handleFkmNonlinear, handleWoehler, handleCollective, handleEquistress, handleMiner, handleMaterialLaws, handleBroadcast, handleMeanstress, handleVmap]
 
 def answer (line : String) : String :=
   let toks := (line.splitOn " ").filter (· ≠ "")
